@@ -61,7 +61,7 @@ static const char *volatile g_phase = "init";
 static __thread int t_lib;            /* this thread is a library thread or inside a library call */
 static __thread unsigned t_rng;
 static __thread int t_role;           /* 0 application, 1 listener, 2 clientInput, 3 clientOutput */
-static volatile int g_force;          /* 1 = lost wake-up schedule, 2 = iterator use-after-free schedule */
+static volatile int g_force;          /* 1 = lost wake-up schedule, 2 = iterator use-after-free schedule, 3 = cursor brackets, 4 = shutdown join */
 
 /* ---- known mutexes: class S(end) U(pdate) O(utput) R(efcount) of client slot k, C(ursor) */
 typedef struct { rfbClientPtr cl; int live; int gone; } slot_t;
@@ -161,6 +161,8 @@ ssize_t __wrap_write(int fd, const void *b, size_t n) {
   if (t_lib) perturb();
   r = __real_write(fd, b, n);
   if (t_lib && t_role == 3 && (r < (ssize_t)n)) g_write_blocked++;
+  /* rfbShutdownServer between rfbCloseClient's notification and its read of currentCl->client_thread */
+  if (g_force == 4 && t_lib && t_role == 0 && n == 1) usleep(200000);
   return r;
 }
 
@@ -210,7 +212,7 @@ static void on_alarm(int sig) {
   __real_write(1, b, n);
   _exit(3);
 }
-static void phase(const char *p, int secs) { g_phase = p; alarm((unsigned)sp(secs) + 1); }
+static void phase(const char *p, int secs) { g_phase = p; if (secs < 10) secs = 10; alarm((unsigned)sp(secs) + 1); }
 
 /* ---- a small RFB client (harness threads; never perturbed) */
 typedef struct { int kind; int port; int id; int ok; int converged; int updates; int why; uint32_t fb[W * H]; volatile int *stop; } cli_t;
@@ -218,6 +220,7 @@ enum { K_STAY, K_ABRUPT, K_SLOW, K_ABANDON, K_CYCLE };
 
 static int rd_full(int fd, void *buf, size_t n, int ms) {
   size_t off = 0;
+  if (ms >= 2000 && ms < 10000) ms = 10000;      /* a give-up time-out (not a polling interval) is never below 10 s */
   while (off < n) {
     struct pollfd pf = {fd, POLLIN, 0};
     int r = poll(&pf, 1, sp(ms));
@@ -378,7 +381,7 @@ static int run_stress(unsigned seed, int ypct, int nstay, int nabrupt, int nslow
   LIBCALL(rfbRunEventLoop(S, -1, TRUE));
 
   /* phase 1: connect/disconnect cycles, one after the other (thread reclamation) */
-  phase("cycles", 40);
+  phase("cycles", 50 + 11 * ncycles);
   for (i = 0; i < ncycles; i++) {
     cli_t c; memset(&c, 0, sizeof c); c.kind = K_CYCLE; c.port = port; c.id = i; c.stop = &stop;
     client_main(&c);
@@ -392,7 +395,7 @@ static int run_stress(unsigned seed, int ypct, int nstay, int nabrupt, int nslow
   printf("#cycles n=%d new=%d gone=%d created=%d joined=%d\n", ncycles, g_new, g_gone, g_created, g_joined);
 
   /* phase 2: concurrent clients + application activity */
-  phase("stress", 60);
+  phase("stress", 90);
   for (i = 0; i < nstay; i++) { cl[n].kind = K_STAY; n++; }
   for (i = 0; i < nslow; i++) { cl[n].kind = K_SLOW; n++; }
   for (i = 0; i < nabrupt; i++) { cl[n].kind = K_ABRUPT; n++; }
@@ -401,7 +404,7 @@ static int run_stress(unsigned seed, int ypct, int nstay, int nabrupt, int nslow
      open client whatever its protocol state, which would corrupt a handshake in progress */
   for (i = 0; i < n; i++) { cl[i].port = port; cl[i].id = i; cl[i].stop = &stop;
     if (cl[i].kind == K_STAY || cl[i].kind == K_SLOW) __real_pthread_create(&th[i], NULL, client_main, &cl[i]); }
-  { int w = 0, all; do { all = 1; for (i = 0; i < n; i++) if ((cl[i].kind == K_STAY || cl[i].kind == K_SLOW) && !cl[i].ok) all = 0; usleep(1000); } while (!all && w++ < 8000); }
+  { int w = 0, all; do { all = 1; for (i = 0; i < n; i++) if ((cl[i].kind == K_STAY || cl[i].kind == K_SLOW) && !cl[i].ok) all = 0; usleep(1000); } while (!all && w++ < 15000); }
   for (i = 0; i < n; i++) if (!(cl[i].kind == K_STAY || cl[i].kind == K_SLOW)) __real_pthread_create(&th[i], NULL, client_main, &cl[i]);
   for (i = 0; i < 150; i++) {
     int j, x = (int)(rnd() % W), y = (int)(rnd() % H);
@@ -441,7 +444,7 @@ static int run_stress(unsigned seed, int ypct, int nstay, int nabrupt, int nslow
        output thread in WAIT - only rfbCloseClient's notifications can end them) */
     for (k = 0; k < 3; k++) { memset(&late[k], 0, sizeof late[k]); late[k].kind = K_STAY; late[k].port = port; late[k].id = 100 + k; late[k].stop = &never;
                               __real_pthread_create(&lt[k], NULL, k == 2 ? idle_client : client_main, &late[k]); }
-    { int w = 0; while (!late[2].ok && w++ < 3000) usleep(1000); }
+    { int w = 0; while (!late[2].ok && w++ < 10000) usleep(1000); }
     usleep(20000);
     LIBCALL(rfbShutdownServer(S, TRUE));
     never = 1;
@@ -508,7 +511,7 @@ static int run_forced(int which) {
     for (i = 0; i < W * H; i++) fb[i] = 0x00202020u;
     LIBCALL(rfbRunEventLoop(S, -1, TRUE));
     for (i = 0; i < 2; i++) { memset(&c2[i], 0, sizeof c2[i]); c2[i].port = port; c2[i].stop = &stop; __real_pthread_create(&t2[i], NULL, fur_client, &c2[i]); }
-    { int w = 0; while (!(c2[0].ok && c2[1].ok) && w++ < 5000) usleep(1000); }
+    { int w = 0; while (!(c2[0].ok && c2[1].ok) && w++ < 10000) usleep(1000); }
     usleep(50000);
     phase("cursor", 15);
     for (i = 0; i < W * H; i++) if (fb[i] != 0x00202020u) diff++;
@@ -527,9 +530,16 @@ static int run_forced(int which) {
   LIBCALL(rfbRunEventLoop(S, -1, TRUE));
   memset(&c, 0, sizeof c); c.port = port; c.stop = &stop;
   __real_pthread_create(&th, NULL, idle_client, &c);
-  { int w = 0; while (!c.ok && w++ < 5000) usleep(1000); }
+  { int w = 0; while (!c.ok && w++ < 10000) usleep(1000); }
   usleep(100000);
-  if (which == 1) {
+  if (which == 4) {
+    phase("shutdown", 10);
+    g_force = 4;
+    LIBCALL(rfbShutdownServer(S, TRUE));
+    g_force = 0; alarm(0);
+    stop = 1; __real_pthread_join(th, NULL);
+    printf("result hang=0 forced=shutdownjoin new=%d gone=%d\n", g_new, g_gone);
+  } else if (which == 1) {
     phase("shutdown", 8);
     g_force = 1;
     LIBCALL(rfbShutdownServer(S, TRUE));
@@ -652,19 +662,19 @@ static int run_phases(unsigned seed, int ypct, int rounds) {
   port = start_server();
   if (port < 0) { printf("result error=nolisten\n"); return 1; }
   LIBCALL(rfbRunEventLoop(S, -1, TRUE));
-  phase("connect", 30);
+  phase("connect", 60);
   for (k = 0; k < 4; k++) {
     memset(&c[k], 0, sizeof c[k]); c[k].kind = k < 3 ? k : 0; c[k].port = port;
     if (pc_connect(&c[k])) { printf("result error=connect%d\n", k); return 1; }
     pc_fur(&c[k], 0);
-    if (pc_settle(&c[k], fb, 1, 5000)) { printf("result error=initial%d why=%d\n", k, c[k].why); return 1; }
+    if (pc_settle(&c[k], fb, 1, 10000)) { printf("result error=initial%d why=%d\n", k, c[k].why); return 1; }
   }
   for (i = 0; i < PH_N; i++) order[i] = i;
   for (i = PH_N - 1; i > 0; i--) { int j = (int)(rnd() % (unsigned)(i + 1)), tmp = order[i]; order[i] = order[j]; order[j] = tmp; }
   for (ph = 0; ph < rounds * PH_N; ph++) {
     int op = order[ph % PH_N], j;
     unsigned r = rnd();
-    phase(ph_name[op], 30);
+    phase(ph_name[op], 60);
     nph++;
     /* no request is outstanding now.  ONE last operation: */
     switch (op) {
@@ -784,7 +794,7 @@ static int run_policy(unsigned seed, int ypct, int always, int never, int dd, in
   port = start_server();
   if (port < 0) { printf("result error=nolisten\n"); return 1; }
   LIBCALL(rfbRunEventLoop(S, -1, TRUE));
-  phase("policy-connect", 30);
+  phase("policy-connect", 60);
   g_hs_shared = 1; fa = cl_connect(port);
   if (fa < 0 || cl_handshake(fa)) { printf("result error=connectA\n"); return 1; }
   if (sock_alive(fa, 10000) != 1) { printf("result error=initialA\n"); return 1; }
@@ -799,7 +809,7 @@ static int run_policy(unsigned seed, int ypct, int always, int never, int dd, in
   fflush(stdout);
   /* teardown of the first client that is still connected */
   survivor_fd = a_st == 1 ? fa : fb_; survivor_slot = a_st == 1 ? 0 : 1;
-  phase("policy-teardown", 20);
+  phase("policy-teardown", 45);
   { int closed_by_server = (a_st == 0) + (b_st == 0);
     if (!wait_gone(closed_by_server, 10000)) tore = 0;          /* the refused / replaced one */
     if (route == 0) { close(survivor_fd); if (!wait_gone(closed_by_server + 1, 10000)) tore = 0; }
@@ -904,7 +914,7 @@ static int run_fragment(unsigned seed, int ypct) {
     if (fail) { printf("presult mode=fragment fragment_ok=0 why=stream%d rects=%d\n", fail, n); fflush(stdout); goto done; }
   }
   /* the peer asks again (incrementally) until it shows the application's framebuffer */
-  phase("fragment-settle", 40);
+  phase("fragment-settle", 90);
   for (rounds = 0; rounds < 60; rounds++) {
     unsigned char m[10] = {3, 1, 0, 0, 0, 0, (FW >> 8), (FW & 255), (FH >> 8), (FH & 255)};
     diff = 0; for (i = 0; i < FW * FH; i++) if (cfb[i] != fbuf[i]) diff++;
@@ -946,6 +956,7 @@ static void run_case(char *line) {
   if (!strncmp(line, "fragment ", 9)) { forced = 11; sscanf(line, "fragment %u %d", &pseed, &py); }
   if (!strncmp(line, "force lostwakeup", 16)) forced = 1;
   else if (!strncmp(line, "force iteruaf", 13)) forced = 2;
+  else if (!strncmp(line, "force shutdownjoin", 18)) forced = 4;
   else if (!strncmp(line, "force cursor", 12)) forced = 3;
   sscanf(line, "stress %u %d %d %d %d %d %d %d", &seed, &y, &a, &b, &c, &d, &e, &f);
   fflush(stdout);
